@@ -1924,6 +1924,44 @@ def _e_header(rows, P, rng):
     return [['asm', 'comp', 'zlo', 'zhi', 'idx', 'c0']] + rows
 
 
+def _later_of_type(P):
+    """CSV id (1-based position index) of an assembly whose type already
+    occurs at an earlier position."""
+    from vmon import gen as _g
+    seen = set()
+    for q in sorted(P['positions'],
+                    key=lambda q: _g.pos_index0(q['ring'], q['pos'])):
+        if q['type'] in seen:
+            return _g.pos_index0(q['ring'], q['pos']) + 1
+        seen.add(q['type'])
+    return None
+
+
+def _e_drop_item_later(rows, P, rng):
+    a = _later_of_type(P)
+    comps = sorted({int(r[1]) for r in rows if int(r[0]) == a})
+    idx = _sel(rows, a, comps[0])
+    n = max(int(rows[i][4]) for i in idx)
+    return [r for i, r in enumerate(rows)
+            if not (i in set(idx) and int(r[4]) == n)]
+
+
+def _e_short_later(rows, P, rng):
+    a = _later_of_type(P)
+    cells = sorted({(float(r[2]), float(r[3])) for r in rows
+                    if int(r[0]) == a})
+    zl, zh = cells[-1]
+    new = repr(zl + (zh - zl) * 0.8)
+    for r in rows:
+        if int(r[0]) == a and float(r[2]) == zl:
+            r[3] = new
+    return rows
+
+
+_csv_mut('item_missing_everywhere:later_assembly_of_its_type',
+         'wrong item count', _e_drop_item_later, needs=('core2', 'reptype'))
+_csv_mut('z_too_short:later_assembly_of_its_type', 'wrong length',
+         _e_short_later, needs=('core2', 'reptype'))
 _csv_mut('item_missing_in_one_cell', 'wrong item count', _e_drop_row)
 _csv_mut('item_missing_everywhere', 'wrong item count', _e_drop_item,
          needs=('nolf',))
@@ -2086,6 +2124,8 @@ def _needs_ok(P, T, needs):
     comps = spec.get('comps', [1, 2, 3])
     for n in needs:
         if n == 'nolf' and t.get('use_low_fidelity_model'):
+            return False
+        if n == 'reptype' and _later_of_type(P) is None:
             return False
         if n == 'pw_pins' and 1 not in comps:
             return False
